@@ -10,7 +10,7 @@ ID = "C18"
 LEAN_MODULES = ["PycModel.Properties.C18"]
 NAMESPACES = ["PycModel.C18"]
 REQUIRED_THEOREMS = ["PycModel.C18.balanced_counts", "PycModel.C18.delete_breaks_balance",
-                     "PycModel.C18.duplicate_breaks_balance", "PycModel.C18.unbalanced_of_counts", "PycModel.C18.ok_no_lex_error", "PycModel.C18.lex_error_rejects"]
+                     "PycModel.C18.duplicate_breaks_balance", "PycModel.C18.unbalanced_of_counts", "PycModel.C18.ok_no_lex_error", "PycModel.C18.lex_error_rejects", "PycModel.C18.impl_directive_patterns"]
 LEVEL = "proof"
 TRUSTED = ["'parse ok => token brackets balanced' over the parser model is not yet proved; kernel-checked are the soundness of the mutation oracle (all sequences) and the lexer-error lemmas; rejection itself is observed on the real parser and compared with the Lean parser model"]
 ASSUMPTIONS = []
@@ -19,7 +19,11 @@ BR = {"(": ")", "[": "]", "{": "}"}
 OPEN = set(BR)
 CLOSE = set(BR.values())
 ALLB = sorted(OPEN | CLOSE)
-INJECT = ["@", "`", "\\", "/* c */", "// c\n", "'", '"', "\n#include <x.h>\n", "\n#define X 1\n", "\n#if 1\n", "$$@", "\\n"]
+INJECT = ["@", "`", "\\", "/* c */", "// c\n", "'", '"', "\n#include <x.h>\n", "\n#define X 1\n", "\n#if 1\n", "$$@", "\\n",
+          # directives whose name merely resembles a supported one, and every other common directive
+          "\n#pragmatic once\n", "\n#pragma_pack(1)\n", "\n# pragma2 foo\n", "\n#pragmas )]{ @\n", "\n#linex 5\n", "\n#line5\n",
+          "\n#lineage\n", "\n# lines 3\n", "\n#ident \"x\"\n", "\n#error x\n", "\n#undef X\n", "\n#endif\n", "\n#else\n", "\n#warning w\n",
+          "\n#\n", "\n#!\n", "\n#include_next <x.h>\n", "\n#elif 1\n", "\n#ifdef X\n"]
 
 
 def rejected(text):
